@@ -4,6 +4,7 @@ import json, os, sys
 here = os.path.dirname(os.path.abspath(__file__))
 sys.path.insert(0, here)
 import specs
+import levels
 verif = os.path.dirname(here)
 base = json.load(open('/root/.vp/BASELINE.json'))
 props = [json.loads(l) for l in open(os.path.join(verif, 'properties.jsonl'))]
@@ -20,11 +21,11 @@ for pid in sorted(READY):
         'engine': 'rapid-harness',
         'level_claimed': {
             'category': s['level'],
-            'text': s.get('level_text', 'Generated-input search (property-based testing) against an explicit oracle; held on everything explored, no absence proof.'),
+            'text': s.get('level_text') or levels.L[pid][0],
             'design_ref': 'DESIGN.md §4 ' + pid,
         },
-        'level_note': s.get('level_note', '; '.join(s.get('assumptions', [])) or 'oracle and generator as described in DESIGN.md'),
-        'technique': s.get('technique', 'property-based testing (pgregory.net/rapid) against an independent oracle'),
+        'level_note': levels.L[pid][2] + ((' | ' + s['level_note']) if s.get('level_note') else ''),
+        'technique': levels.L[pid][1],
     })
 na = []
 for p in props:
